@@ -1315,7 +1315,9 @@ func c09AdmissiblePerm(r *Rand, dirs []string) []int {
 	return out
 }
 
-var c09Words = []string{"/", "/a", "/api", "X-A", "1", "{path}", "a b", "x\ny", "", `say "hi"`, "import", "-Server", "*.txt", "on", "é", "k=v", "{", "}"}
+var c09Words = []string{"/", "/a", "/api", "X-A", "1", "{path}", "a b", "x\ny", "", `say "hi"`, "import", "-Server", "*.txt", "on", "é", "k=v", "{", "}",
+	// quoted values continued over a line break with a trailing backslash inside the quotes, and longer multi-line values
+	"long \\\n value", "a\\\nb\nc", "three\nline\nvalue"}
 
 func c09GenLine(r *Rand, d string) c09Line {
 	l := c09Line{D: d, T: []string{d}}
@@ -1437,7 +1439,7 @@ func c09GenParse(r *Rand, out *[]interface{}) {
 }
 
 func c09GenMalformed(r *Rand, out *[]interface{}) {
-	words := []string{"root", "header", "gzip", "{", "}", "}", "{", "/x", "a", "\"q r\"", "\"m\nn\"", "bogus", "import", "#c"}
+	words := []string{"root", "header", "gzip", "{", "}", "}", "{", "/x", "a", "\"q r\"", "\"m\nn\"", "bogus", "import", "#c", "\"c \\\n d\""}
 	var sb strings.Builder
 	braced := r.Chance(85)
 	sb.WriteString("127.0.0.1:0")
@@ -1546,7 +1548,13 @@ var c09Pool = []c09PoolLine{
 	{"index", "index idx.html index.html", 15},
 	{"log", "log / LOGFILE \"{method} {uri} {status}\"", 40},
 	{"gzip", "gzip", 25}, {"gzip", "gzip {\n min_length 8\n ext .txt .md\n}", 10}, {"gzip", "gzip {\n not /big.txt\n}", 10},
-	{"header", "header / X-A 1", 25}, {"header", "header /docs X-B 2", 15}, {"header", "header / {\n X-C 3\n -X-Nope\n}", 15}, {"header", "header /api X-Api yes", 15}, {"header", "header / X-A 2", 10},
+	{"header", "header / X-A 1", 25}, {"header", "header /docs X-B 2", 15},
+	// a long value continued with a trailing backslash inside the quotes; a multi-line value; both
+	// inside a block. WHICH line stands directly below such a value differs between the two orders
+	{"header", "header / X-Long \"default-src 'self'; \\\n img-src *\"", 30}, {"header", "header /docs X-Doc \"line1\nline2\"", 12},
+	{"header", "header /dir {\n X-Wrap \"w1 \\\n w2 \\\n w3\"\n X-D 4\n}", 12},
+	{"mime", "mime .html \"text/html; \\\n charset=utf-8\"", 15},
+	{"basicauth", "basicauth /int \"u\" \"p\\\nq\"", 8}, {"header", "header / {\n X-C 3\n -X-Nope\n}", 15}, {"header", "header /api X-Api yes", 15}, {"header", "header / X-A 2", 10},
 	{"rewrite", "rewrite /r1 /a.txt", 20}, {"rewrite", "rewrite /r2 /secret/s.txt", 20}, {"rewrite", "rewrite {\n regexp ^/re/(.*)$\n to /{1}\n}", 15}, {"rewrite", "rewrite /r1 /b.txt", 15},
 	{"redir", "redir /old /a.txt 301", 20}, {"redir", "redir /old2 /docs/ 302", 15}, {"redir", "redir /r1 /elsewhere 307", 8},
 	{"basicauth", "basicauth /secret u p", 30}, {"basicauth", "basicauth /api v q", 25},
@@ -1690,7 +1698,9 @@ func c09GenBlocks(r *Rand, dirs []string) []c09Block {
 	return blocks
 }
 
-var c09TextWords = []string{"/", "/a", "X-A", "1", "{path}", "a b", "x\ny", "", `say "hi"`, "import", "-Server", "é", "k=v", "{$C09V}", "{%C09D%}", "a{$C09E}b", "#x", "two  spaces"}
+var c09TextWords = []string{"/", "/a", "X-A", "1", "{path}", "a b", "x\ny", "", `say "hi"`, "import", "-Server", "é", "k=v", "{$C09V}", "{%C09D%}", "a{$C09E}b", "#x", "two  spaces",
+	// values continued with a backslash directly in front of the line break (inside the quotes), longer multi-line values
+	"long \\\n value", "\\\nx", "p1 \\\n p2 \\\n p3", "three\nline\nvalue", "{$C09V}\\\nz"}
 
 func c09GenALine(r *Rand, name string) c09ALine {
 	var ts []c09LT
@@ -1857,7 +1867,7 @@ func c09Gen(r *Rand, tier string) []interface{} {
 func init() {
 	register(&Property{
 		ID: "C09", Imports: "V.Lib V.Gen_C09 V.C09_Model", Judge: "judge", Shard: 150,
-		Rule: "parse: generated server blocks (1-8 lines over 1-5 directive names, brace blocks, quoted/multi-line tokens, comments) through casketfile.Parse in written, admissibly permuted and arbitrarily permuted line order + a malformed token stream; text: C10-printed configurations (every token quoted; 1-7 lines over 1-4 names incl. names written as environment references, sub-blocks to depth 3, multi-line / empty / env-valued tokens, optional blocks in front and behind, 1-2 keys) in two line orders (70% admissible) through casketfile.Parse — Dispenser view (text, NextLine, NextArg) of every group vs the C10 parser model on the model-printed text and vs C09 grouping of the AST; exec: casket.Start/ValidateAndExecuteDirectives on a probe server type with a per-case directive list (1-8 names), 1-3 blocks x 1-3 keys, failing setups/callbacks; hist: 2-6 loads (Start / validate-only / Instance.Restart) of the probe server type in one process over one shared directive slice, with unknown directives, syntax errors, failing setups and callbacks — outcome class, trace and the slice after every load vs the state-threaded model and vs the fresh-process oracle; site: real http sites from a pool of 45 directive lines in two admissible line orders, 32-request battery + access log + compiled middleware stack (= documented sequence); order: 74 behavioural probes (22 hand-written + every pair the property names: 4 gates x 6 content handlers incl. the static file server and a live FastCGI responder, 4 wrappers x 6, 3 rewriters x internal, request_id x log) with lines in written, reversed and random order, optionally after a history of http loads; dirs: ValidDirectives, the registered http directive plugins and the compiled stack of a fixed 24-directive site after histories of 0-4 http loads (validate / start+stop / reload of a running site; valid, misspelt directive, syntax error, failing setup). non-trivial = parse: a repeated directive interleaved with another one or a parse error; text: a repeated directive and >= 2 names; exec: >= 2 calls; hist: >= 2 loads; site: starts and uses >= 3 directives; order: always; dirs: after >= 1 load",
+		Rule: "parse: generated server blocks (1-8 lines over 1-5 directive names, brace blocks, quoted/multi-line tokens, comments) through casketfile.Parse in written, admissibly permuted and arbitrarily permuted line order + a malformed token stream; text: C10-printed configurations (every token quoted; 1-7 lines over 1-4 names incl. names written as environment references, sub-blocks to depth 3, multi-line / backslash-newline-continued / empty / env-valued tokens, optional blocks in front and behind, 1-2 keys) in two line orders (70% admissible) through casketfile.Parse — Dispenser view (text, NextLine, NextArg) of every group vs the C10 parser model on the model-printed text and vs C09 grouping of the AST; exec: casket.Start/ValidateAndExecuteDirectives on a probe server type with a per-case directive list (1-8 names), 1-3 blocks x 1-3 keys, failing setups/callbacks; hist: 2-6 loads (Start / validate-only / Instance.Restart) of the probe server type in one process over one shared directive slice, with unknown directives, syntax errors, failing setups and callbacks — outcome class, trace and the slice after every load vs the state-threaded model and vs the fresh-process oracle; site: real http sites from a pool of 50 directive lines (incl. quoted values continued with a trailing backslash-newline inside the quotes and multi-line quoted values, as the last token of their line and inside blocks) in two admissible line orders, 32-request battery + access log + compiled middleware stack (= documented sequence); order: 74 behavioural probes (22 hand-written + every pair the property names: 4 gates x 6 content handlers incl. the static file server and a live FastCGI responder, 4 wrappers x 6, 3 rewriters x internal, request_id x log) with lines in written, reversed and random order, optionally after a history of http loads; dirs: ValidDirectives, the registered http directive plugins and the compiled stack of a fixed 24-directive site after histories of 0-4 http loads (validate / start+stop / reload of a running site; valid, misspelt directive, syntax error, failing setup). non-trivial = parse: a repeated directive interleaved with another one or a parse error; text: a repeated directive and >= 2 names; exec: >= 2 calls; hist: >= 2 loads; site: starts and uses >= 3 directives; order: always; dirs: after >= 1 load",
 		Gen:    c09Gen,
 		Decode: func(raw json.RawMessage) (interface{}, error) { in := &c09In{}; return in, json.Unmarshal(raw, in) },
 		Run:    c09Run,
